@@ -2,7 +2,8 @@
 //!   senders    the client `SendBuffer` (inside the facade `VerifTransport`: `Request::send` ->
 //!              `TransportState::wait_for_outgoing_message` -> `SendBuffer::{next_request_id, write, encode_next_chunk,
 //!              read_into_async}`) and the server `MessageWriter::{write, bytes_to_write}`; the bytes they emit are cut
-//!              into frames by the real `TcpCodec` and the headers parsed back with `MessageChunk::chunk_info`;
+//!              into frames by the real `TcpCodec` and the headers parsed back with `verify_and_remove_security` (a helper
+//!              channel of the receiving role) and `MessageChunk::chunk_info`;
 //!              (`Responder = "peer"`: responses split by `Chunker::encode` with a chunk size, a server that chunks)
 //!   receivers  the server `TcpTransport` (hook `verif_chunk` = `process_chunk`), the client `TransportState`
 //!              (`handle_incoming_message`), and `Chunker::{validate_chunks, decode}` called directly ("fn": fed with
@@ -10,7 +11,8 @@
 //! The adversary acts on the harness's copy of the wire (real chunk bytes); forged headers (policy None only) are
 //! made with `MessageChunk::new`.
 //!
-//! case = {"case": id, "cfg": {"policy": "None"|"Basic256Sha256-Sign", "responder": "writer"|"peer"}, "steps": [...]}
+//! case = {"case": id, "cfg": {"policy": "None"|"Basic256Sha256-SignAndEncrypt"|"Basic256Sha256-Sign", "responder": "writer"|"peer"},
+//!         "steps": [...]}
 use crate::common::*;
 use crate::e_sendbuf::{sock_once, Answer, Sink, RT};
 use crate::srv::*;
@@ -329,7 +331,8 @@ impl World {
             }
             "Mixed" if len >= 1 && self.policy == "None" => {
                 let c = self.wire(&w)[0].clone();
-                let f = self.forge(&c, CHAN, 50);
+                let chan = c.hdr["chan"].as_u64().unwrap_or(CHAN as u64) as u32; // keeps whatever channel id the chunk carries now
+                let f = self.forge(&c, chan, 50);
                 self.wire(&w)[0] = f;
             }
             "Replay" => {
